@@ -172,7 +172,7 @@ PROPS = {
                     "(known finding D13, not repaired: prefix forms like `/ 1 2 * 3` are pinned by the test-suite). Listings: run-time bounds"),
         rule="random chains x tables x renderings: FlatEx::parse, DeepEx::parse, to_deepex, from_deepex and random conversion histories of length 0..6; sloppy texts (groups starting with binary operators, operands next to each other, nested) on which flat and deep parse must agree whenever both accept; variable lists and symbolic values compared with the documented value; operator listings of both forms checked to be sorted, duplicate-free, to contain every operator applied to a variable-dependent operand and nothing absent from the text; non-trivial = at least two binary operators; distinct by request hash",
         kinds=[dict(kind="anytext", quick=12000, thorough=400000, corr=["acc", "fv", "wv", "dv"], oracle=[],
-                    oracle_const=[("agree", "ok|-")], nontrivial=lambda req, A, B: A.get("acc", "") == "ooo"),
+                    oracle_const=[("agree", "ok|-"), ("conv", "ok")], nontrivial=lambda req, A, B: A.get("acc", "") == "ooo"),
                dict(kind="forms", quick=24000, thorough=800000,
                     corr=["f", "d", "f2d", "d2f", "h", "fvars", "dvars", "f2dvars", "d2fvars", "hvars", "br", "ur", "or", "dbr", "dur", "dor", "dtext", "f2dtext", "htext"],
                     oracle=[("f_nf", "spec_nf"), ("d_nf", "spec_nf"), ("f2d_nf", "spec_nf"), ("d2f_nf", "spec_nf"), ("h_nf", "spec_nf"),
